@@ -243,7 +243,7 @@ def main(argv: list[str]) -> int:
     # ---- verdict -----------------------------------------------------------------------------
     violations = []
     known_seen = []
-    rdir = os.path.join(ROOT, "replays", prop)
+    rdir = os.path.join(os.environ.get("VERIF_REPLAYS") or os.path.join(ROOT, "replays"), prop)
     if not args.only:
         shutil.rmtree(rdir, ignore_errors=True)  # witnesses of this run only
     os.makedirs(rdir, exist_ok=True)
@@ -254,7 +254,7 @@ def main(argv: list[str]) -> int:
             continue
         r, c = lst[0]
         safe = re.sub(r"[^A-Za-z0-9_.-]+", "_", key)[:120]
-        path = os.path.join(ROOT, "replays", prop, f"{safe}.json")
+        path = os.path.join(os.environ.get("VERIF_REPLAYS") or os.path.join(ROOT, "replays"), prop, f"{safe}.json")
         with open(path, "w") as f:
             json.dump({"property": prop, "key": key, "case": r["case"], "failed_check": c,
                        "n_failing_checks_with_this_key": len(lst), "sample": r.get("sample")}, f, indent=1)
